@@ -58,6 +58,14 @@ impl PageTableEntry {
         PhysAddr::new(self.entry & 0x000f_ffff_ffff_f000)
     }
 
+    /// Returns the physical address of the huge frame mapped by this entry. In an entry that
+    /// maps a huge page bit 12 is the PAT bit ([`PageTableFlags::PAT_HUGE_PAGE`]), not part
+    /// of the address.
+    #[inline]
+    pub(crate) fn huge_page_addr(&self) -> PhysAddr {
+        PhysAddr::new(self.entry & 0x000f_ffff_ffff_e000)
+    }
+
     /// Returns the physical frame mapped by this entry.
     ///
     /// Returns the following errors:
